@@ -676,6 +676,10 @@ class Ev:
                 if c is not None:
                     return self.ev(e.body if c else e.orelse)
             raise Inconclusive('conditional expression ' + unparse(e))
+        if isinstance(e, (ast.BoolOp, ast.ListComp, ast.GeneratorExp, ast.Dict,
+                          ast.JoinedStr, ast.Lambda, ast.Set, ast.DictComp)):
+            # outside the arithmetic fragment: an opaque value of its own
+            return Rat.atom('expr:' + unparse(e, 80))
         raise Inconclusive(type(e).__name__ + ' ' + unparse(e))
 
     def elem(self, base, ik, node):
